@@ -52,6 +52,8 @@ def proj_c16(c):
 
 def proj_c17(c):
     k = kind(c)
+    if k == 'session':       # both client libraries, every call of the session
+        return (c.impl, c.model)
     if k == 'open':          # the two client libraries (kind, errno, detail)
         return (parts(c.impl)[1:], parts(c.model)[1:])
     if k == 'seg':           # the image the daemon leaves behind
@@ -91,8 +93,8 @@ PROPS_HEADER = {
     level_text='C17.decode_encode (round trip for in-range fields), field_* (offset and width of each of the eleven fields of encodeSegmentP, any padding), total_size, layout_sound, status_codes, byte_order are about the model\'s encoder, which C16.repair_roundtrip ties to the bytes the daemon writes. doc_layout_agrees / doc_types_agree / doc_plan / doc_status_agrees / doc_endianness, rust_*_layout / rust_layout_is_model_layout / rust_magic_agrees / rust_status_agrees, c_enums_agree / c_err_kind_codes / c_status_codes / c_structs_agree / c_functions_agree / abi_expected are closed by decide against the generated facts. C17.magic_doc_agrees (separate module) compares the document\'s spelling of the magic number with the bytes written. holds_seg_of / model_holds_seg / model_holds_sandwich / model_holds_abi tie the oracles to the model.',
     level_note='Trusted: Lean kernel + standard axioms; the translator (tokenisation only, fails on anything it cannot parse); LP64 System V sizes/alignments in `AbiTy`; the C side is observed through one C program.',
     pre='c17',
-    gens=lambda seed, th: [['hdr-abi'], ['hdr-seg', seed, 60000 if th else 4000], ['hdr-sandwich', seed, 200000 if th else 12000], ['hdr-open', seed, 20000 if th else 2000]],
-    relevant=lambda c: kind(c) in ('seg', 'sandwich', 'cabi', 'open'),
+    gens=lambda seed, th: [['hdr-abi'], ['hdr-seg', seed, 60000 if th else 4000], ['hdr-sandwich', seed, 200000 if th else 12000], ['hdr-open', seed, 20000 if th else 2000], ['session', seed, 40000 if th else 1500]],
+    relevant=lambda c: kind(c) in ('seg', 'sandwich', 'cabi', 'open', 'session'),
     project=proj_c17,
     nontrivial=lambda c: (kind(c) == 'seg' and bool(c.tags & {'recreated', 'takenOver'}) and bool(c.tags & {'negField', 'extremeField', 'highBitU32', 'st1', 'st2'}))
                          or (kind(c) == 'sandwich' and bool(c.tags & {'growth', 'near5s', 'nearVoid', 'nearBlur', 'errMalformed', 'errCausality', 'panic'}))
